@@ -71,7 +71,7 @@ PROPS["C10"] = {
     "kani": "c10",
     "mir": "c10",
     "level": "model_checking",
-    "explanation": "Bounded model checking (Kani/CBMC) of the comparison every sorter and k-way merger delegates to (ScalarValue::compare) on each numeric / time / bool sort-key type: equals the typed order, antisymmetric and transitive over three arbitrary values; plus the heap ordering (asc / desc, shard tie-break) of the ordered merger through a cfg(kani) hook. Engine B B-3: ghost counters over MergerState::run show the n-th emitted row is the (offset+n)-th popped row and nothing is emitted beyond the limit (<= 3 loop iterations).",
+    "explanation": "Bounded model checking (Kani/CBMC) of the comparison every sorter and k-way merger delegates to (ScalarValue::compare) on each numeric / time / bool sort-key type: equals the typed order, antisymmetric and transitive over three arbitrary values; plus the heap ordering (asc / desc, shard tie-break) of the ordered merger through a cfg(kani) hook. Engine B B-3: ghost counters over MergerState::run show the n-th emitted row is the (offset+n)-th popped row and nothing is emitted beyond the limit (<= 3 loop iterations). B-4: MemTableSource's local limit (None for ordered queries, else LIMIT + OFFSET before LIMIT) is the only thing its sorted rows are truncated by.",
     "outside": [
         "the ordered mergers themselves (async, over channels) and top-k zone pre-selection (RLTE, I/O); the window kernel try_accept_row and the OFFSET-without-LIMIT gate are decided by Engine B",
         "string sort keys in general (str::parse of symbolic text does not finish); only the concrete witness of F-C10-a",
@@ -83,7 +83,7 @@ PROPS["C16"] = {
     "kani": "c16",
     "mir": "c16",
     "level": "model_checking",
-    "explanation": "Bounded model checking (Kani/CBMC) of the integer-epoch unit heuristic that every numeric spelling of a time goes through: for every i64 in each documented digit window the result is the floor of the denoted instant in seconds (the value an ISO-8601 spelling of the same instant gets), including instants before 1970 and both digit-count boundaries of every unit; 20+ digit integers are rejected for every i128. Engine B B-3: TimeParser::normalize_integer_epoch over the whole i128 range through a mod-2^128 integer encoding of its MIR (signed arithmetic, unsigned_abs / div_euclid / i64::try_from modelled exactly; num_digits_u128 unrolled 40x with the unwinding assertion discharged and replaced by a per-digit-count lemma): seconds unchanged below 10^11, floor(n/10^3), floor(n/10^6), floor(n/10^9) in the ms / us / ns windows, None from 20 digits.",
+    "explanation": "Bounded model checking (Kani/CBMC) of the integer-epoch unit heuristic that every numeric spelling of a time goes through: for every i64 in each documented digit window the result is the floor of the denoted instant in seconds (the value an ISO-8601 spelling of the same instant gets), including instants before 1970 and both digit-count boundaries of every unit; 20+ digit integers are rejected for every i128. Engine B B-3: TimeParser::normalize_integer_epoch over the whole i128 range through a mod-2^128 integer encoding of its MIR (signed arithmetic, unsigned_abs / div_euclid / i64::try_from modelled exactly; num_digits_u128 unrolled 40x with the unwinding assertion discharged and replaced by a per-digit-count lemma): seconds unchanged below 10^11, floor(n/10^3), floor(n/10^6), floor(n/10^9) in the ms / us / ns windows, None from 20 digits. B-4: normalize_json_value writes back the unit heuristic's result for JSON integers, the floor of a JSON float and the string parser's result for strings (data flow of the values assigned to the payload slot).",
     "outside": [
         "ISO-8601 / RFC 3339 spellings and UTC offsets (chrono parsing does not finish under Kani), agreement of the four normalisation call sites on strings",
         "the choice of unit at a digit-count boundary is the documented heuristic itself (an 11-digit millisecond value is read as seconds); it is taken as given, not checked against the caller's intent",
@@ -97,10 +97,10 @@ MIR_TRUSTED = ['rustc (repository toolchain) -Zdump-mir output is a faithful ren
 PROPS["C19"] = {
     "mir": "c19",
     "level": "other",
-    "explanation": "Symbolic path-condition checking over the real MIR of WalCleaner::cleanup_up_to (rustc dump, z3): the negation of each guard / ordering obligation is sent to the solver over all branch outcomes of every opaque call and both values of CONFIG.wal.conservative_mode; unsat = no feasible path deletes a log after a failed archive, before archiving, or at or above the cut-off. B-5: WalArchiver::archive_logs_up_to appends the outcome of every archive_log call (Ok or Err) before moving on or returning, and archives only logs below the cut-off.",
+    "explanation": "Symbolic path-condition checking over the real MIR of WalCleaner::cleanup_up_to (rustc dump, z3): the negation of each guard / ordering obligation is sent to the solver over all branch outcomes of every opaque call and both values of CONFIG.wal.conservative_mode; unsat = no feasible path deletes a log after a failed archive, before archiving, or at or above the cut-off. B-5: WalArchiver::archive_logs_up_to appends the outcome of every archive_log call (Ok or Err) before moving on or returning, and archives only logs below the cut-off. B-6: WalArchive::from_wal_file walks the file's own line iterator with nothing removed beforehand and adds every line that parses as a WAL entry.",
     "trusted_base": MIR_TRUSTED,
     "outside": [
-        "archive content fidelity (MessagePack + zstd) and recovery order: data relations inside serde / zstd code",
+        "archive encoding fidelity (MessagePack + zstd round trip) and recovery order: data relations inside serde / zstd code",
         "that WalArchiver::archive_log itself returns Err whenever the archive was not written (its own Ok-implies-written summary is B-4)",
         "fault patterns of the real file system (the obligations quantify over every Result outcome instead)",
     ],
@@ -154,7 +154,7 @@ PROPS["C11"] = {
 PROPS["C13"] = {
     "mir": "c13",
     "level": "other",
-    "explanation": "Symbolic checking over the real MIR (z3): (1) path summaries of the loop-free PermissionCache::can_read / can_write against the statement's rule (admin, explicit grant, role unless overridden, REVOKE denies), both directions; (2) in every handler that checks a permission (STORE, QUERY, DEFINE, permission and user management) the data / management effect is unreachable unless auth is off, or a user id is present and it is the bypass id or the permission call returned true; (3) data flow of dispatch_command: which handlers receive the identity at all. B-4k: revoke_key persists and caches an inactive record, the cache only after the store write succeeded.",
+    "explanation": "Symbolic checking over the real MIR (z3): (1) path summaries of the loop-free PermissionCache::can_read / can_write against the statement's rule (admin, explicit grant, role unless overridden, REVOKE denies), both directions; (2) in every handler that checks a permission (STORE, QUERY, DEFINE, permission and user management) the data / management effect is unreachable unless auth is off, or a user id is present and it is the bypass id or the permission call returned true; (3) data flow of dispatch_command: which handlers receive the identity at all. B-4k: revoke_key persists and caches an inactive record, the cache only after the store write succeeded. B-5: REVOKE stores the reduced permission set of every named event type before moving on or answering OK.",
     "trusted_base": MIR_TRUSTED + ["the promoted constant compared with the user id in the handlers is BYPASS_USER_ID (promoted bodies are not decoded)"],
     "outside": [
         "HMAC verification, session expiry, rate limiting, the per-connection gates of the four front ends, BATCH",
@@ -166,7 +166,7 @@ PROPS["C13"] = {
 PROPS["C17"] = {
     "mir": "c17",
     "level": "other",
-    "explanation": "Symbolic data-flow / reachability checking over the real MIR of every parser body (hand-written and peg-generated, ~320 bodies) and of dispatch_command (z3): no reachable unwrap / expect consumes the result of a conversion of input text, and no feasible path of dispatch_command reaches a panic for any Command variant. Candidates are replayed natively through the public parse_command with boundary inputs derived from the converted types; the inputs of repaired findings stay in the replay set. B-5: the OR / AND / NOT rules of the QUERY and PLOT expression grammars form precedence strata (operand rules, recursion, keyword guards, re-entry into the whole-expression rule only after a matched open parenthesis); a structural deviation is confirmed on the real parser with unparenthesised sample expressions.",
+    "explanation": "Symbolic data-flow / reachability checking over the real MIR of every parser body (hand-written and peg-generated, ~320 bodies) and of dispatch_command (z3): no reachable unwrap / expect consumes the result of a conversion of input text, and no feasible path of dispatch_command reaches a panic for any Command variant. Candidates are replayed natively through the public parse_command with boundary inputs derived from the converted types; the inputs of repaired findings stay in the replay set. B-5: the OR / AND / NOT rules of the QUERY and PLOT expression grammars form precedence strata (operand rules, recursion, keyword guards, re-entry into the whole-expression rule only after a matched open parenthesis); a structural deviation is confirmed on the real parser with unparenthesised sample expressions. B-6: no grammar action compares matched keyword text with an alphabetic constant by exact equality; confirmed by re-spelling the keywords of sample commands in mixed case on the real parser.",
     "trusted_base": MIR_TRUSTED + ["native replay program /verif/native (plain cargo build of /repo with the repository toolchain)"],
     "outside": [
         "totality over all byte strings (the PEG parser does not run under Kani: 2 symbolic bytes > 25 min); slice-index and arithmetic panics whose operands are not conversions of input text",
